@@ -78,6 +78,8 @@ def _check_peel(name, W, M, k, core, order, level, case, fails):
 def check(case, ctx):
     kind = case["kind"]
     W = gen.layout(np.array(case["W"], dtype=float), case.get("order"))
+    dt = case.get("dtype", "float64") if kind in ("bu", "bd") else "float64"
+    ctx.label("dtype:" + dt)
     n = len(W)
     fails = []
     ctx.label("kind:" + kind)
@@ -102,7 +104,7 @@ def check(case, ctx):
         cores[k] = core
         if core and len(core) < nonisolated:
             ctx.mark_nontrivial({"kind": kind, "W": W, "k": k})
-        r = run(fn, gen.layout(W.copy(), case.get("order")), k)
+        r = run(fn, gen.layout(W.astype(dt), case.get("order")), k)
         if r is None:
             continue
         try:
@@ -122,7 +124,7 @@ def check(case, ctx):
             fails.append(Failure("oracle:cores-not-nested", "harness bug", case))
         prev_core = core
         if kind in ("bu", "bd") and k > 0:
-            r = run(fn, W.copy(), k, peel=True)
+            r = run(fn, W.astype(dt), k, peel=True)
             if r is not None:
                 try:
                     R2, size2, order, level = r
@@ -153,7 +155,7 @@ def check(case, ctx):
 
     if kind in ("bu", "bd") and case.get("coreness", True):
         f = bct.kcoreness_centrality_bu if kind == "bu" else bct.kcoreness_centrality_bd
-        r = run(f, gen.layout(W.copy(), case.get("order")))
+        r = run(f, gen.layout(W.astype(dt), case.get("order")))
         if r is not None:
             try:
                 cness, kn = r
@@ -203,8 +205,10 @@ def _levels_wu(M):
         for v in M[np.ix_(keep, keep)].sum(axis=1):
             vals.add(float(v))
     out = set()
+    pos = [v for v in vals if v > 0]
+    unit = (min(pos) / 8.0) if pos else 0.125      # a step well below the smallest attained strength (scale-aware)
     for v in vals:
-        out |= {v, v + 0.125, max(0.0, v - 0.125)}
+        out |= {v, v + unit, max(0.0, v - unit)}
     return sorted(out)[:24]
 
 
@@ -240,14 +244,15 @@ def cases(draw, nmax, kinds):
     if draw(st.booleans()):
         A = gen.apply_perm(A, draw(gen.perm(n)))
     if kind == "wu":
-        W = draw(gen.weights_for(A, "dyadic", False))
+        W = draw(gen.weights_for(A, "dyadic", False)) * draw(st.sampled_from(gen.POW2_SCALES))
         M = oc.contribution_matrix(W, "wu")
         lv = _levels_wu(M)
         pick = draw(st.lists(st.sampled_from(lv), min_size=1, max_size=4, unique=True)) if lv else [0.5]
         return {"kind": kind, "W": W, "levels": sorted(pick), "order": draw(st.sampled_from(gen.ORDERS)), "cut": draw(st.integers(0, 2))}
     W = A.astype(float)
     M = oc.contribution_matrix(W, kind)
-    return {"kind": kind, "W": W, "levels": _levels_bin(M), "coreness": True, "order": draw(st.sampled_from(gen.ORDERS)), "cut": draw(st.integers(0, 2))}
+    return {"kind": kind, "W": W, "levels": _levels_bin(M), "coreness": True, "order": draw(st.sampled_from(gen.ORDERS)), "cut": draw(st.integers(0, 2)),
+            "dtype": draw(st.sampled_from(gen.BINARY_DTYPES))}
 
 
 _SP = {}
@@ -266,7 +271,8 @@ def _exh(tier, lo, hi):
     for n, d, A, k in _space(tier).range(lo, hi):
         kind = "bd" if d else "bu"
         W = A.astype(float)
-        yield {"kind": kind, "W": W, "levels": _levels_bin(oc.contribution_matrix(W, kind)), "coreness": True}
+        yield {"kind": kind, "W": W, "levels": _levels_bin(oc.contribution_matrix(W, kind)), "coreness": True,
+               "dtype": gen.BINARY_DTYPES[k % len(gen.BINARY_DTYPES)], "order": gen.ORDERS[k % len(gen.ORDERS)]}
 
 
 def units(tier):
